@@ -6,28 +6,28 @@ NOTE = "Decides only the structural necessary conditions named in the evidence f
 CLAIMED = {
  "C02": ("other", "Path-sensitive typestate check of splitQueries (pending sort/take never crossed), canAttachSort refuse-set, top = sort+take, clause order and sort-default tables. These are the decision points the property names; result-set equality itself is out of reach of static analysis.", "DESIGN.md §3 C02",
          "typestate over an AST abstract interpreter with path facts + table extraction"),
- "C09": ("other", "Scanner back-up typestate on every path, token span shape at every construction site, Scan's dispatch read as a table with path facts and compared with the documented token table, character classes evaluated symbolically. Kinds/values of arbitrary lexemes are runtime quantities and are not decided.", "DESIGN.md §3 C09",
+ "C09": ("other", "Scanner back-up typestate on every path, token span shape at every construction site, Scan's dispatch read as a table with path facts and compared with the documented token table, first-character classes of the sub-scanners and the white-space class recovered from path facts and compared on U+0000..U+30FF, every documented lexeme yields a token, escape decoding of string literals. Kinds/values of arbitrary lexemes are runtime quantities and are not decided.", "DESIGN.md §3 C09",
          "typestate + table extraction with path facts (AST abstract interpreter)"),
  "C11": ("other", "parser.Walk read as a table: pushed dynamic types subset of handled cases, every node field pushed once, optional fields nil-guarded, one gated visitor call per case. Nearly the whole property is a shape property of one function, so a table-agreement check is the right level.", "DESIGN.md §3 C11",
          "table extraction from the type switch (go/types implementers vs cases) + AST guard matching"),
 }
-CLAIMED["C13"] = ("other", "Return-pair typestate of Compile on every path, single-query typestate, arity ranges at the first emission of every built-in writer compared with the documented table, error discipline of every emitting call, let-mode and join-alias gates as must-facts at the identifier emission, row-count and join-kind validation in the parser. 'Every rule-abiding program compiles' quantifies over programs and is not decided.", "DESIGN.md §3 C13",
+CLAIMED["C13"] = ("other", "Return-pair typestate of Compile on every path, single-query typestate, arity ranges at the first emission of every built-in writer compared with the documented table, error discipline of every emitting call, let-mode and join-alias gates as must-facts at the identifier emission, row-count and join-kind validation in the parser, no error value overwritten before it is looked at. 'Every rule-abiding program compiles' quantifies over programs and is not decided.", "DESIGN.md §3 C13",
          "path facts (AST abstract interpreter) at return/emission sites + table agreement")
-CLAIMED["C16"] = ("other", "Sibling/must-check rules on cmd/pql run and main with path facts: every Compile call gets the let prelude, read errors are consulted and returned, the failure flag is sticky, the prelude grows only on validated statements, output format, exit status. Byte-exact stdout over all scripts is a runtime quantity and is not decided.", "DESIGN.md §3 C16",
+CLAIMED["C16"] = ("other", "Sibling/must-check rules on cmd/pql run and main with path facts: every Compile call gets the let prelude, read errors are consulted and returned, the failure flag is sticky, the prelude grows only on validated statements, output format, exit status, carry of the unfinished statement, plus the splitter rules of C15. Byte-exact stdout over all scripts is a runtime quantity and is not decided.", "DESIGN.md §3 C16",
          "path facts (AST abstract interpreter) at call/return sites of cmd/pql")
 CLAIMED["C14"] = ("proof", "Absence of shared mutable state and ambient input is an effect property of the code, decided soundly by an interprocedural provenance/effect analysis over the SSA form of every function of the two library packages: every write is to call-local memory, globals are written only at init or under their own sync.Once, no goroutines/channels/time/rand/os/reflect/unsafe, map iteration order never reaches output, nil options guarded. All obligations must be discharged or the check fails.", "DESIGN.md §3 C14",
          "interprocedural effect/provenance analysis on go/ssa (allocation-site classes, fixpoint over call sites)")
-CLAIMED["C15"] = ("other", "Provenance of every cut offset in SplitStatements with path facts (only Span.Start/End of tokens known to be TokenSemi from Scan of the same string), tail piece unconditional, Parse's splitter tests the same kind on the same scan. That a piece scanned alone yields the same tokens depends on every lexer look-ahead and is not decided.", "DESIGN.md §3 C15",
+CLAIMED["C15"] = ("other", "Provenance of every cut offset in SplitStatements with path facts (only Span.Start/End of tokens known to be TokenSemi from Scan of the same string), tail piece unconditional, Parse's splitter tests the same kind on the same scan, every return hands back the pieces, and the scanner's look-ahead typestate (C09/backup, C09/lookahead). That a piece scanned alone yields the same tokens depends on every lexer look-ahead and is not decided.", "DESIGN.md §3 C15",
          "value-provenance rule with path facts (AST abstract interpreter)")
-CLAIMED["C10"] = ("other", "Completeness of all per-node Span() unions against the struct definitions, provenance class of every recorded span (token span / nullSpan / union of token bounds / copy), error-position safety and the shape of every source slice by span. Exactness of each position on every input is a runtime quantity and is not decided.", "DESIGN.md §3 C10",
+CLAIMED["C10"] = ("other", "Completeness of all per-node Span() unions against the struct definitions, provenance class of every recorded span (token span / nullSpan / union of token bounds / copy), error-position safety, the shape of every source slice by span, line:column counted in characters, clause spans of sort terms. Exactness of each position on every input is a runtime quantity and is not decided.", "DESIGN.md §3 C10",
          "exhaustiveness check over go/types struct fields + syntactic provenance classes of span values")
-CLAIMED["C07"] = ("other", "Precedence table order, precedence-climbing guards as path facts at the BinaryExpr construction and the recursive call, sign operand production, keyword/synonym table of the tabular operators, sort-term defaults and their rendering. The tree for every derivation and layout independence quantify over inputs and are not decided.", "DESIGN.md §3 C07",
+CLAIMED["C07"] = ("other", "Precedence table order, precedence-climbing guards as path facts at the BinaryExpr construction and the recursive call, sign operand production, keyword/synonym table of the tabular operators, sort-term defaults and their rendering, every production result kept in the tree. The tree for every derivation and layout independence quantify over inputs and are not decided.", "DESIGN.md §3 C07",
          "table extraction from switches + path facts (AST abstract interpreter) at construction sites")
 CLAIMED["C01"] = ("other", "Output-grammar derivation of the expression writer with closedness classes at every operand hole, needsParens agreement, descending unwrap loops, reader/writer operator table agreement and built-in rewrite skeletons. Value equality over rows needs the semantics of both languages and is not decided.", "DESIGN.md §3 C01",
          "grammar extraction by abstract interpretation + FIRST/LAST-style class analysis + table agreement")
-CLAIMED["C04"] = ("other", "Taint analysis of every raw write into the SQL text with path facts, no hand-made quotes, escape sets of the two sanitizers recovered from their per-byte branches and compared with the dialect's metacharacters. Decoding by a real SQL lexer and numeric value preservation are not decided.", "DESIGN.md §3 C04",
+CLAIMED["C04"] = ("other", "Taint analysis of every raw write into the SQL text with path facts, no hand-made quotes, escape sets of the two sanitizers recovered from their per-byte branches and compared with the dialect's metacharacters (missing and extra escapes), pass-through function names are identifier tokens. Decoding by a real SQL lexer and numeric value preservation are not decided.", "DESIGN.md §3 C04",
          "taint analysis over the derived output grammar + sanitizer escape-set recovery")
-CLAIMED["C05"] = ("other", "Bracket-depth abstract interpretation over every emitting function (path-sensitive), single terminator, and deadness of all placeholder branches by constructed-vs-handled set inclusion. Whether arbitrary accepted programs parse under ClickHouse is not decided.", "DESIGN.md §3 C05",
+CLAIMED["C05"] = ("other", "Bracket-depth abstract interpretation over every emitting function (path-sensitive), single terminator, and deadness of all placeholder branches by constructed-vs-handled set inclusion, table references name subqueries that are defined. Whether arbitrary accepted programs parse under ClickHouse is not decided.", "DESIGN.md §3 C05",
          "abstract interpretation of bracket depth over the derived grammar + exhaustiveness tables")
 CLAIMED["C06"] = ("other", "Provenance of the scope in every expression context, the single guarded lookup site as path facts, closedness class of stored let values from the derived grammar, let mode, lets after the query, store order, parameter copy. Evaluation equivalence of substituted SQL is not decided.", "DESIGN.md §3 C06",
          "value-provenance over call sites + path facts at the lookup site + grammar class of the let production")
@@ -35,7 +35,7 @@ CLAIMED["C03"] = ("other", "Join-kind table agreement parser/compiler/documentat
          "table agreement + path facts on the derived join-source grammar + AST shape rules")
 CLAIMED["C08"] = ("other", "Pairing rule for every split range (closed by endSplit, an explicit exhaustion test or a recorded error on every path), interprocedural not-found hygiene (a not-found error that can reach an isNotFound decision was produced before any token was consumed), and no production accepts the lexer's error token. 'Re-printing the tree gives back the token sequence' for all inputs is not decided.", "DESIGN.md §3 C08",
          "typestate/pairing over an AST abstract interpreter + bottom-up production summaries to a fixpoint")
-CLAIMED["C12"] = ("other", "Progress witnesses for every unbounded loop on every abstract back-edge path (net successful cursor reads, with interprocedural consumption summaries), cursor discipline, acyclicity of same-node recursion in every call-graph SCC, deadness of explicit panics and discharge of every index/slice expression by guard facts or a reviewed row. Time bounds, stack depth and general nil-safety are not decided.", "DESIGN.md §3 C12",
+CLAIMED["C12"] = ("other", "Progress witnesses for every unbounded loop on every abstract back-edge path (net successful cursor reads, with interprocedural consumption summaries), cursor discipline, acyclicity of same-node recursion in every call-graph SCC, deadness of explicit panics and discharge of every index/slice expression by guard facts (in the helper or in each caller's context) or a reviewed row, errors merged at most once. Time bounds, stack depth and general nil-safety are not decided.", "DESIGN.md §3 C12",
          "termination witnesses and bounds-obligation discharge over an AST abstract interpreter + call-graph SCC analysis")
 NA = {}
 def main():
